@@ -99,7 +99,7 @@ def rule2_locks(ctx, views):
         for r in f.exits():
             ctx.ob('C02.2', name + ': unlocked at return', not la.held_may(r), 'no lock is held at any return', loc=r.loc,
                    detail='held: %s' % [la.name(x) for x in la.held_may(r)])
-        ctx.ob('C02.2', name + ': balanced', not la.double_unlock and not la.relock,
+        ctx.ob('C02.2', name + ': balanced', not la.double_unlock and not la.relock and not la.unheld_unlock,
                'no unlock of an unheld lock, no re-lock of a held lock', loc=f.loc,
                detail=str([i.loc for i in la.double_unlock + la.relock]))
         for st in f.stores_to(BASE):
